@@ -203,6 +203,26 @@ def gen_T08():
          and 'network.expireStsPolicy(server.hostname)' in src_ap, '_applyStsPolicy: lookup key changed')
     need('network.addDisconnection(self.currentServer.hostname)' in ast.unparse(find_def(d, 'onDisconnect', 'ServersMixin')), 'onDisconnect: key changed')
     need('addStsPolicy(self.driver.currentServer.hostname, policy)' in ast.unparse(find_def(t, '_onCapSts', 'Irc')), '_onCapSts: store key changed')
+    # Irc.reset: both queues are emptied before the connect messages are queued
+    ir = [ast.unparse(x) for x in _body(find_def(t, 'reset', 'Irc'))]
+    need(ir[:5] == ['self._setNonResettingVariables()', 'self.state.reset()', 'self.queue.reset()', 'self.fastqueue.reset()', 'self.startedSync.clear()']
+         and ir[-1] == 'self._queueConnectMessages()' and len(ir) == 7, 'Irc.reset: statements changed: %r' % ir[:6])
+    need('self.fastqueue.enqueue(msg)' in ast.unparse(find_def(t, 'sendMsg', 'Irc')), 'Irc.sendMsg changed')
+    src_take = ast.unparse(find_def(t, 'takeMsg', 'Irc'))
+    need('if self.fastqueue:\n        msg = self.fastqueue.dequeue()' in src_take, 'Irc.takeMsg: fast queue first')
+    # SocketDriver.reconnect (C09): the attempt number is filled in with _replace (every other field, force_tls_verification included, survives),
+    # TLS is started when ssl is on or verification is forced; Server is a plain 4-field namedtuple without defaults
+    sk = tree('src/drivers/Socket.py')
+    src_rc = ast.unparse(find_def(sk, 'reconnect', 'SocketDriver'))
+    need('self.currentServer = server or self._getNextServer()' in src_rc
+         and 'if self.currentServer.attempt is None:\n        self.currentServer = self.currentServer._replace(attempt=self._attempt)\n    else:\n'
+             '        self._attempt = self.currentServer.attempt' in src_rc, 'SocketDriver.reconnect: attempt fix-up changed')
+    need('if network_config.ssl() or self.currentServer.force_tls_verification:\n            self.starttls()' in src_rc, 'SocketDriver.reconnect: TLS start condition changed')
+    need(module_assign(d, 'Server') is not None and ast.unparse(module_assign(d, 'Server')) == "namedtuple('Server', 'hostname port attempt force_tls_verification')"
+         and 'Server.__new__' not in ast.unparse(d), 'drivers.Server changed')
+    src_tls = ast.unparse(find_def(sk, 'starttls', 'SocketDriver'))
+    need('if self.currentServer.force_tls_verification and (not self.anyCertValidationEnabled()):\n        verifyCertificates = True' in src_tls
+         and 'verify=verifyCertificates' in src_tls and 'hostname=self.currentServer.hostname' in src_tls, 'SocketDriver.starttls changed')
     has_filter = any(isinstance(n, ast.FunctionDef) and n.name == 'filterSaslMechanisms' for n in irc.body)
     order = ['on_init_messages_sent', 'on_sasl_cap', 'on_sasl_auth_finished', 'on_cap_end', 'on_start_motd', 'on_end_motd', 'on_shutdown']
     out = '(* FSM states: ' + ', '.join('%s=%d' % kv for kv in sorted(states.items(), key=lambda kv: kv[1])) + ' *)\n'
